@@ -41,29 +41,38 @@ type effects struct {
 	arrs  map[string]arrDesc
 	dirty map[string]bool // arrays possibly written at objects that existed at function entry
 	all   bool
+	ext   bool // everything except arrays holding repository-declared types (external library callee)
 	trace bool
 	alloc bool
+	why   string // first reason for `all`
+}
+
+func (e *effects) setAll(why string) {
+	if !e.all {
+		e.all = true
+		e.why = why
+	}
 }
 
 func newEffects() *effects { return &effects{arrs: map[string]arrDesc{}, dirty: map[string]bool{}} }
 
 // rootedFresh: the address is inside an object allocated by this very function activation.
-func rootedFresh(addr ssa.Value) bool {
+func rootedFresh(addr ssa.Value, scope map[*ssa.BasicBlock]bool) bool {
+	in := func(v ssa.Instruction) bool { return scope == nil || scope[v.Block()] }
 	switch a := addr.(type) {
 	case *ssa.Alloc:
-		return true
+		return in(a)
 	case *ssa.FieldAddr:
-		return rootedFresh(a.X)
+		return rootedFresh(a.X, scope)
 	case *ssa.IndexAddr:
 		switch x := a.X.(type) {
 		case *ssa.Alloc:
-			return true
+			return in(x)
 		case *ssa.MakeSlice:
-			return true
+			return in(x)
 		case *ssa.Slice:
 			if al, ok := x.X.(*ssa.Alloc); ok {
-				_ = al
-				return true
+				return in(al)
 			}
 		}
 	}
@@ -74,6 +83,10 @@ func (e *effects) merge(o *effects) bool {
 	ch := false
 	if o.all && !e.all {
 		e.all, ch = true, true
+		e.why = o.why
+	}
+	if o.ext && !e.ext {
+		e.ext, ch = true, true
 	}
 	if o.trace && !e.trace {
 		e.trace, ch = true, true
@@ -101,6 +114,9 @@ func (e *effects) addMap(mt *types.Map) {
 }
 
 func addTypeStoreTargets(T types.Type, fld *types.Var, e *effects) {
+	if runtimeInternalField(fld) {
+		return
+	}
 	if _, isS := fld.Type().Underlying().(*types.Struct); isS {
 		addStructTargets(fld.Type(), e)
 		return
@@ -189,10 +205,10 @@ func (f *frame) localName(a *ssa.Alloc) string {
 }
 
 // directEffects: effects of one instruction, calls excluded (handled by the caller).
-func directEffects(in ssa.Instruction, e *effects, localName func(a *ssa.Alloc) string) {
+func directEffects(in ssa.Instruction, e *effects, localName func(a *ssa.Alloc) string, scope map[*ssa.BasicBlock]bool) {
 	switch x := in.(type) {
 	case *ssa.Store:
-		if rootedFresh(x.Addr) {
+		if rootedFresh(x.Addr, scope) {
 			staticStoreTargets(x.Addr, e, localName)
 		} else {
 			tmp := newEffects()
@@ -208,7 +224,7 @@ func directEffects(in ssa.Instruction, e *effects, localName func(a *ssa.Alloc) 
 	case *ssa.MapUpdate:
 		mt := x.Map.Type().Underlying().(*types.Map)
 		e.addMap(mt)
-		if _, fresh := x.Map.(*ssa.MakeMap); !fresh {
+		if mm, fresh := x.Map.(*ssa.MakeMap); !fresh || !(scope == nil || scope[mm.Block()]) {
 			e.dirty[mapPArr(mt)], e.dirty[mapVArr(mt)] = true, true
 		}
 	case *ssa.Alloc:
@@ -333,7 +349,7 @@ func (P *Program) summaries(DB *ContractDB) *Summaries {
 		p := pending{fn: fn}
 		for _, b := range fn.Blocks {
 			for _, in := range b.Instrs {
-				directEffects(in, e, nil)
+				directEffects(in, e, nil, nil)
 				if ci, ok := in.(ssa.CallInstruction); ok {
 					if _, isGo := in.(*ssa.Go); isGo {
 						continue // spawned goroutines are outside the sequential model
@@ -391,13 +407,26 @@ func (t *Trans) siteEffects(f *frame, c *ssa.CallCommon, ci ssa.CallInstruction,
 	} else if ci != nil && S != nil {
 		callees = S.sites[ci]
 	}
+	if len(callees) == 0 && !c.IsInvoke() {
+		// call of a function-typed parameter: accounted for at the call sites of this function (funcArgEffects)
+		if _, isParam := c.Value.(*ssa.Parameter); isParam {
+			return
+		}
+	}
 	if len(callees) == 0 {
 		if c.IsInvoke() && c.Method.Pkg() != nil && noEffectPkgs[c.Method.Pkg().Path()] {
 			e.alloc = true
 			return
 		}
-		e.all, e.alloc = true, true
 		// an unknown callee cannot append to the ghost trace: events come only from contracts in this repository
+		if c.IsInvoke() && (c.Method.Pkg() == nil || !strings.HasPrefix(c.Method.Pkg().Path(), repoModule)) {
+			// method of an interface declared outside the repository with no implementation in the program
+			e.ext, e.alloc = true, true
+			t.funcArgEffects(f, c, e, S)
+			return
+		}
+		e.setAll("dynamic call / repo interface without implementation: " + plan.name)
+		e.alloc = true
 		return
 	}
 	for _, callee := range callees {
@@ -410,7 +439,18 @@ func (t *Trans) siteEffects(f *frame, c *ssa.CallCommon, ci ssa.CallInstruction,
 				t.contractEffects(callPlan{fc: fc, callee: callee, sig: callee.Signature}, e)
 				continue
 			}
-			e.all, e.alloc = true, true
+			if obj, ok := callee.Object().(*types.Func); ok && effectfulLib[fullName(obj)] {
+				e.alloc = true
+				if !libWriteEffects(fullName(obj), c, e) {
+					e.setAll("library function writing through its arguments: " + fullName(obj))
+				}
+				t.funcArgEffects(f, c, e, S)
+				continue
+			}
+			// external library function without body: may modify anything but objects of repository-declared types;
+			// functions passed as arguments are assumed to be called
+			e.ext, e.alloc = true, true
+			t.funcArgEffects(f, c, e, S)
 			continue
 		}
 		if fc, ok := t.DB.Funcs[FnKey(callee)]; ok && (fc.HasMod || fc.Pure || fc.NoEffect) {
@@ -424,10 +464,121 @@ func (t *Trans) siteEffects(f *frame, c *ssa.CallCommon, ci ssa.CallInstruction,
 		if S != nil {
 			if se := S.fn[callee]; se != nil {
 				e.merge(se)
+				t.funcArgEffects(f, c, e, S)
 				continue
 			}
 		}
-		e.all, e.trace, e.alloc = true, true, true
+		e.setAll("callee without summary: " + callee.String())
+		e.trace, e.alloc = true, true
+	}
+}
+
+// libWriteEffects: library functions that write through their arguments, by argument type.
+func libWriteEffects(name string, c *ssa.CallCommon, e *effects) bool {
+	argType := func(i int) types.Type {
+		if i >= len(c.Args) {
+			return nil
+		}
+		a := c.Args[i]
+		if mi, ok := a.(*ssa.MakeInterface); ok {
+			return mi.X.Type()
+		}
+		if ct, ok := a.(*ssa.ChangeType); ok {
+			return ct.X.Type()
+		}
+		return a.Type()
+	}
+	sliceElems := func(tp types.Type) bool {
+		if tp == nil {
+			return false
+		}
+		sl, ok := tp.Underlying().(*types.Slice)
+		if !ok {
+			return false
+		}
+		if _, isS := sl.Elem().Underlying().(*types.Struct); isS {
+			addStructTargets(sl.Elem(), e)
+			s := sl.Elem().Underlying().(*types.Struct)
+			for i := 0; i < s.NumFields(); i++ {
+				e.dirty[fieldArr(sl.Elem(), s.Field(i).Name())] = true
+			}
+			return true
+		}
+		e.arrs[elemArr(sl.Elem())] = arrDesc{'E', sl.Elem()}
+		e.dirty[elemArr(sl.Elem())] = true
+		return true
+	}
+	switch name {
+	case "sort.Strings", "sort.Slice", "sort.SliceStable", "slices.Sort", "slices.SortFunc", "slices.SortStableFunc", "slices.Reverse":
+		return sliceElems(argType(0))
+	case "sort.Sort", "sort.Stable":
+		return false
+	case "encoding/json.Unmarshal", "google.golang.org/protobuf/proto.Unmarshal", "google.golang.org/protobuf/encoding/protojson.Unmarshal",
+		"google.golang.org/protobuf/encoding/prototext.Unmarshal", "(*encoding/json.Decoder).Decode":
+		// writes the object its last argument points to (and whatever hangs below it in external types)
+		e.ext = true
+		tp := argType(len(c.Args) - 1)
+		if tp != nil {
+			if p, ok := tp.Underlying().(*types.Pointer); ok {
+				if _, isS := p.Elem().Underlying().(*types.Struct); isS {
+					addStructTargets(p.Elem(), e)
+					s := p.Elem().Underlying().(*types.Struct)
+					for i := 0; i < s.NumFields(); i++ {
+						e.dirty[fieldArr(p.Elem(), s.Field(i).Name())] = true
+					}
+				} else {
+					e.arrs[cellArr(p.Elem())] = arrDesc{'M', p.Elem()}
+					e.dirty[cellArr(p.Elem())] = true
+				}
+			}
+		}
+		return true
+	}
+	return false
+}
+
+// funcArgEffects adds the effects of function values passed to an external callee.
+func (t *Trans) funcArgEffects(f *frame, c *ssa.CallCommon, e *effects, S *Summaries) {
+	for _, a := range c.Args {
+		var fn *ssa.Function
+		for {
+			ct, ok := a.(*ssa.ChangeType)
+			if !ok {
+				break
+			}
+			a = ct.X
+		}
+		if f != nil {
+			if v, ok := f.vals[a]; ok && v.closureFn != nil {
+				if se := S.fn[v.closureFn]; se != nil {
+					e.merge(se)
+					continue
+				}
+			}
+		}
+		switch x := a.(type) {
+		case *ssa.MakeClosure:
+			fn, _ = x.Fn.(*ssa.Function)
+		case *ssa.Function:
+			fn = x
+		default:
+			if _, isSig := a.Type().Underlying().(*types.Signature); isSig {
+				if _, isParam := a.(*ssa.Parameter); isParam {
+					continue // forwarded parameter: accounted for at our own call sites
+				}
+				if c, isConst := a.(*ssa.Const); isConst && c.Value == nil {
+					continue // nil function
+				}
+				e.setAll("unknown function value passed to a callee")
+			}
+		}
+		if fn != nil && S != nil {
+			if se := S.fn[fn]; se != nil {
+				e.merge(se)
+			} else {
+				e.setAll("function argument without summary")
+			}
+		}
 	}
 }
 
@@ -439,7 +590,7 @@ func (f *frame) loopEffects(li *loopInfo) *effects {
 	S := f.t.P.summaries(f.t.DB)
 	for b := range li.body {
 		for _, in := range b.Instrs {
-			directEffects(in, e, f.localName)
+			directEffects(in, e, f.localName, li.body)
 			switch x := in.(type) {
 			case *ssa.Defer:
 				if !f.t.isNoopCall(&x.Call) {
